@@ -144,6 +144,23 @@ Definition relate_list_at (l l2 : nodelist) (at_ : string) (t : Z) : result node
   let nodes := nl_nodes l ++ filter (fun n => negb (mem (n_id n) (ids l))) (nl_nodes l2) in
   Ok {| nl_nodes := nodes; nl_edges := edges2; nl_root_elements := nl_root_elements l |}.
 
+(* RelateNodeListAtID with the list itself as the argument, l.RelateNodeListAtID(l, at, t): the loop
+   over "the argument's edges" then ranges over the receiver's own edge slice as it is after the
+   first step (the new edge included), while the index of edge keys is the one taken before it; the
+   new edge, whose key the stale index lacks, is therefore appended a second time.  Every node is
+   already present.  *)
+Definition relate_self_at (l : nodelist) (at_ : string) (t : Z) : result nodelist :=
+  if negb (has l at_) then Err else
+  let k := (at_, t) in
+  let orig := nl_edges l in
+  let edges1 := if has_key k orig
+                then map_first_edge k (fun e => set_to (add_dest (e_to e) (nl_root_elements l)) e) orig
+                else orig ++ [ {| e_type := t; e_from := at_; e_to := nl_root_elements l |} ] in
+  let edges2 := fold_left (fun es e => if has_key (key_of e) orig
+                                      then map_first_edge (key_of e) (fun e0 => set_to (add_dest (e_to e0) (e_to e)) e0) es
+                                      else es ++ [edge_copy e]) edges1 edges1 in
+  Ok {| nl_nodes := nl_nodes l; nl_edges := edges2; nl_root_elements := nl_root_elements l |}.
+
 (* ---- extraction: NodeSiblings, NodeGraph, NodeDescendants, GetNodesByPurlType ---- *)
 Definition out_edges (l : nodelist) (i : string) : list edge :=
   filter (fun e => String.eqb (e_from e) i) (nl_edges l).
@@ -286,5 +303,14 @@ Definition pool_op (p : list nodelist) (po : pop) : op :=
   | None => po_op po
   end.
 
+(* the list a step computes; relating a list at one of its own nodes has its own definition *)
+Definition pool_result (p : list nodelist) (po : pop) : nodelist :=
+  let l := nth (po_recv po) p empty_nl in
+  match po_arg po, po_op po with
+  | Some a, OpRelateList _ at_ t =>
+      if Nat.eqb a (po_recv po) then or_keep l (relate_self_at l at_ t) else step l (pool_op p po)
+  | _, _ => step l (pool_op p po)
+  end.
+
 Definition pool_step (p : list nodelist) (po : pop) : list nodelist :=
-  set_nth (po_dst po) (step (nth (po_recv po) p empty_nl) (pool_op p po)) p.
+  set_nth (po_dst po) (pool_result p po) p.
